@@ -1,6 +1,7 @@
 import Lean.Data.Json
 import MontePyVerif.Spec.Card
 import MontePyVerif.Model.Dispatch
+import MontePyVerif.Model.LexNum
 /-! Line-protocol driver for C12: one JSON request per input line, one JSON answer per output line.
 
   {"op":"tables"}                                   → the pinned terminal sets of Spec.Card (the generator draws from THESE)
@@ -187,6 +188,12 @@ def runCase (j : Json) : R Json := do
     | .ok c => pure (Json.mkObj [("ok", toJson c)])
     | .error .malformedInput => pure (Json.mkObj [("err", "MalformedInputError")])
     | .error .valueError => pure (Json.mkObj [("err", "ValueError")])
+  | "lexnum" =>
+    let w ← fStr j "word"
+    let nuc ← (← j.getObjVal? "nuclides").getBool?
+    match MontePyVerif.LexNum.classifyString nuc w with
+    | some (t, n) => pure (Json.arr #[toJson t, toJson n])
+    | none => pure Json.null
   | "lex" =>
     let w ← fStr j "word"
     match (← fStr j "lexer") with
